@@ -107,7 +107,10 @@ class Raw:
         self.trees = {}
         for mi in prog.modules.values():
             try:
-                tree = ast.parse(mi.source)
+                import warnings
+                with warnings.catch_warnings():
+                    warnings.simplefilter("ignore")
+                    tree = ast.parse(mi.source)
             except SyntaxError as e:         # the loader would have failed already
                 raise AnalysisError("syntax error in %s: %s" % (mi.path, e))
             _set_parents(tree)
